@@ -304,6 +304,13 @@ pub fn shape(p: &ScionPath) -> String {
 
 /// Paths the SDK offers between two ASes: registry → lister plan → segments (real MAC chaining, signing) → combinator.
 pub fn offered(w: &World, reg: &SegmentRegistry, src: usize, dst: usize, ts: u32, seg_id: u16, exp: u8, stock: bool) -> Result<Vec<ScionPath>, String> {
+    offered_mixed(w, reg, src, dst, ts, seg_id, exp, stock, 0)
+}
+
+/// Like `offered`; with `core_delta > 0` the core segments were created (and signed) `core_delta` seconds before the
+/// up/down segments, with another SegID - segments of one lookup are of different ages in the field.
+#[allow(clippy::too_many_arguments)]
+pub fn offered_mixed(w: &World, reg: &SegmentRegistry, src: usize, dst: usize, ts: u32, seg_id: u16, exp: u8, stock: bool, core_delta: u32) -> Result<Vec<ScionPath>, String> {
     let (s, d) = (w.m.isd_asn(src), w.m.isd_asn(dst));
     let when = chrono::DateTime::<chrono::Utc>::from_timestamp(ts as i64, 0).ok_or("timestamp")?;
     if stock {
@@ -311,8 +318,15 @@ pub fn offered(w: &World, reg: &SegmentRegistry, src: usize, dst: usize, ts: u32
     }
     let segs = reg.endhost_list_segments(s, s, d).map_err(|e| format!("{e}"))?;
     let ps = segs.into_path_segments(&w.real, when, seg_id, exp).map_err(|e| format!("{e}"))?;
-    let cores = ps.iter_cores().cloned().collect();
     let non_cores = ps.iter_non_cores().cloned().collect();
+    let cores = if core_delta == 0 {
+        ps.iter_cores().cloned().collect()
+    } else {
+        let older = chrono::DateTime::<chrono::Utc>::from_timestamp(ts as i64 - core_delta as i64, 0).ok_or("timestamp")?;
+        let segs2 = reg.endhost_list_segments(s, s, d).map_err(|e| format!("{e}"))?;
+        let ps2 = segs2.into_path_segments(&w.real, older, seg_id.wrapping_mul(31).wrapping_add(7), exp).map_err(|e| format!("{e}"))?;
+        ps2.iter_cores().cloned().collect()
+    };
     Ok(combine(s, d, cores, non_cores))
 }
 
@@ -619,8 +633,14 @@ fn run_net(prop: &str, ctx: &mut RunCtx) -> RunResult {
     let exp = [255u8, 0, 1, 63, 200][ctx.ch.idx(5)];
     let exp = if stock { 255 } else { exp };
     let seg_id = if stock { 0 } else { seg_id };
-    let life = ((exp as u64 + 1) * 675 / 2) as u32;
-    ctx.log(format!("beacons stock={stock} ts=T0-{} seg_id={seg_id} exp={exp}", T0 - ts));
+    let mut life = ((exp as u64 + 1) * 675 / 2) as u32;
+    // segments of different ages (C01 only): the core segments are older than the up/down segments
+    let core_delta = if prop == "C01" && !stock && life > 16 && ctx.ch.chance(1, 3) { 1 + ctx.ch.draw((life / 4).min(900) as u64) as u32 } else { 0 };
+    if core_delta > 0 {
+        ctx.fault("segments-of-different-age");
+        life -= core_delta;
+    }
+    ctx.log(format!("beacons stock={stock} ts=T0-{} seg_id={seg_id} exp={exp} core segments older by {core_delta}s", T0 - ts));
     let n_pairs = 1 + ctx.ch.idx(4);
     let mut harvest: Vec<(ScionPath, usize, usize)> = Vec::new();
     for _ in 0..n_pairs {
@@ -629,7 +649,7 @@ fn run_net(prop: &str, ctx: &mut RunCtx) -> RunResult {
         if src == dst {
             continue;
         }
-        let paths = match offered(&w, &reg, src, dst, ts, seg_id, exp, stock) {
+        let paths = match offered_mixed(&w, &reg, src, dst, ts, seg_id, exp, stock, core_delta) {
             Ok(p) => p,
             Err(e) => {
                 ctx.log(format!("lookup {}->{} failed: {e}", w.m.name(src), w.m.name(dst)));
